@@ -84,8 +84,34 @@ pub fn gen_tex(rng: &mut Rng, k: Kind, miri: bool) -> Tex {
             }
             p
         }
-        _ => rng.bytes(f.payload_len(w, h)),
+        _ => {
+            let n = f.payload_len(w, h);
+            match rng.below(12) {
+                0 => vec![0u8; n],
+                1 => vec![0xFFu8; n],
+                2 => {
+                    // a payload that begins like a container of its own (magic words of the four formats)
+                    let mut p = rng.bytes(n);
+                    let magic: &[u8] = *rng.pick(&[&b"CTPK\x01\0"[..], &b"BCH\0"[..], &b"CGFX\xFF\xFE"[..], &[0x00, 0x20, 0xAF, 0x30][..], &b"DICT"[..], &b"TXOB"[..]]);
+                    let m = magic.len().min(n);
+                    p[..m].copy_from_slice(&magic[..m]);
+                    p
+                }
+                _ => rng.bytes(n),
+            }
+        }
     };
+    if rng.chance(1, 12) {
+        // the empty name, a name shared with other textures of the same container, and names whose
+        // Shift-JIS form contains the byte 0x5C (as a trail byte, or as a real backslash)
+        let special = *rng.pick(&["", "", "tex", "tex", "ソ", "表示.tga", "a\\b", "十能"]);
+        return Tex { name: special.to_string(), width: w, height: h, format: f.code(), payload, palette: vec![] };
+    }
+    if rng.chance(1, 25) {
+        // names that collide with words the containers use themselves
+        let special = *rng.pick(&["CTPK", "BCH", "CGFX", "DICT", "TXOB", "DATA", "tex", " ", "a/b", "x\\y", "name.tga.tga", "."]);
+        return Tex { name: special.to_string(), width: w, height: h, format: f.code(), payload, palette: vec![] };
+    }
     let name = match k {
         Kind::Ctpk => {
             if rng.chance(1, 3) {
